@@ -22,7 +22,7 @@ ASSUMPTIONS = ["a stored diagonal pixel contributes twice to its bin's marginal 
                "inconclusive", "trans-only mode: the literal clause is a known finding; the c-weighted invariant the code "
                "maintains is checked instead"]
 MIN_NONTRIVIAL = {"quick": 70, "thorough": 700}
-REQUIRED_FEATURES = ["mode:gw", "mode:cis", "mode:trans", "converged", "x0:with-zeros-nans", "blacklist:whole-chromosome",
+REQUIRED_FEATURES = ["mode:gw", "mode:cis", "mode:trans", "converged", "x0:with-zeros-nans", "blacklist:whole-chromosome", "blacklist:cli-bed-file", "blacklist:bed-interval-starts-on-bin-edge",
                      "rescale:off", "mask:min_nnz", "mask:mad_max", "counts:float", "pixels:stored-zero-counts",
                      "store:rebalance-existing-column"]
 KAPPA = 4.0
@@ -103,7 +103,7 @@ def gen_options(rng, n, chrom_of, idx):
 def work_cap(nnz, opts, rng):
     """chunk size such that ceil(nnz/chunksize) * max_iters stays <= ~2000 fetches."""
     it = min(opts["max_iters"], 120)
-    choices = [c for c in (1, 2, 3, 7, max(nnz // 3, 1), max(nnz, 1), nnz + 1, 10**7, None)
+    choices = [c for c in (1, 2, 3, 7, max(nnz // 3, 1), max(nnz - 1, 1), max((nnz - 1) // 2, 1), max(nnz, 1), nnz + 1, 10**7, None)
                if c is None or (-(-nnz // c)) * it <= 700]
     return choices[int(rng.integers(len(choices)))]
 
@@ -237,6 +237,36 @@ def one_case(ctx, cid, rng, idx):
             c.feature("mask:min_nnz")
         if opts["mad_max"]:
             c.feature("mask:mad_max")
+        if "blacklist" in opts and "x0" not in opts and opts["rescale_marginals"] and opts["blacklist"]:
+            # the same run spelled `cooler balance --blacklist BED`: the intervals overlap exactly the blacklisted bins
+            from click.testing import CliRunner
+            from cooler.cli import cli
+            import h5py
+            lines = gen.blacklist_bed(rng, bt, opts["blacklist"])
+            bf = path + ".bl.bed"
+            with open(bf, "w") as fh:
+                fh.writelines(f"{a}\t{b}\t{e}\n" for a, b, e in lines)
+            args = ["balance", uri, "--name", "wbl", "--force", "--blacklist", bf,
+                    "--ignore-diags", str(opts["ignore_diags"]), "--mad-max", str(opts["mad_max"]),
+                    "--min-nnz", str(opts["min_nnz"]), "--min-count", str(opts["min_count"]),
+                    "--tol", repr(opts["tol"]), "--max-iters", str(opts["max_iters"])]
+            args += ["-c", str(cs)] if cs is not None else []
+            args += {"cis": ["--cis-only"], "trans": ["--trans-only"], "gw": []}[mode]
+            r = CliRunner().invoke(cli, args)
+            os.remove(bf)
+            if r.exit_code != 0:
+                raise (r.exception or RuntimeError(r.output[-300:]))
+            with h5py.File(path, "r") as f:
+                wbl = f[group]["bins/wbl"][:]
+            c.feature("blacklist:cli-bed-file", "blacklist:bed-interval-starts-on-bin-edge"
+                      if any(b in {x[1] for x in gen.bt_bins_list(bt) if x[0] == a} and b > 0 for a, b, e in lines)
+                      else "blacklist:bed-interior")
+            bad = np.flatnonzero(np.isnan(wbl) != got_nan)
+            c.check(bad.size == 0, f"nan-set-differs:cli-blacklist-bed:{mode}",
+                    f"`cooler balance --blacklist` with intervals {lines[:6]} masks a different bin set than the same "
+                    f"blacklist given as bin ids (first differing bin {bad[:1].tolist()})",
+                    lambda: {"bed": lines, "cli_nan": np.flatnonzero(np.isnan(wbl)).tolist(),
+                             "api_nan": np.flatnonzero(got_nan).tolist()})
         fin = bias[~got_nan]
         c.check(bool(np.all(np.isfinite(fin)) and np.all(fin > 0)), "weight-not-finite-positive",
                 "an unmasked bin has a non-finite or non-positive weight", {"weights": bias})
